@@ -435,6 +435,13 @@ class RetryExecutor(CanCustomizeBind, Executor):
         if delegate_future.cancelled():
             # nothing to do, retrying on cancel is not allowed
             self._log.debug("Delegate was cancelled: %s", delegate_future)
+            # If the delegate was cancelled by someone else, our own future
+            # would otherwise stay pending forever: cancel it too (a no-op if
+            # we got here through our own future's cancel()).
+            found_job.future.cancel()
+            # The job won't be handled any further, so don't hold on to it
+            # (nor to its future, callable and arguments).
+            self._pop_job(found_job)
             return
 
         (should_retry, sleep_time) = eval_policy(found_job, self._log)
